@@ -6,7 +6,7 @@ import ast
 from ..cfg import CFG
 from ..consteval import ConstEval, EnumMember, Sym
 from ..core import AnalysisError, ClassInfo, own_nodes, parent, short, unparse
-from ..rules import match, lint
+from ..rules import match, shape, trav, lint
 from . import common
 
 EXPLANATION = (
@@ -288,7 +288,24 @@ def check_numbering_header(ctx):
             if k is not None:
               first = start + k
   if first is None and ret is not None:
-    raise AnalysisError(f"{s.qualname}: the cue-numbering idiom (to_string(<index>) over enumerate(self._paragraphs)) was not recognised")
+    # second idiom: every paragraph prints the identifier it was created with
+    plain = [g for g in ast.walk(ret.value) if isinstance(g, (ast.GeneratorExp, ast.ListComp)) and len(g.generators) == 1 and unparse(g.generators[0].iter) == "self._paragraphs"
+             and isinstance(g.elt, ast.Call) and unparse(g.elt.func) == f"{unparse(g.generators[0].target)}.to_string" and not g.elt.args and not g.elt.keywords]
+    if plain:
+      cls = s.cls
+      pops = [(m_, n) for m_ in cls.methods.values() for n in own_nodes(m_.node)
+              if isinstance(n, ast.Call) and isinstance(n.func, ast.Attribute) and n.func.attr == "pop" and unparse(n.func.value) == "self._paragraphs"]
+      unrestored = []
+      for m_, pcall in pops:
+        holder = parent(parent(pcall))
+        sibs = [x for fld in ("body", "orelse") for x in (getattr(holder, fld, []) if isinstance(getattr(holder, fld, None), list) else [])]
+        if not any(isinstance(x, ast.AugAssign) and isinstance(x.op, ast.Sub) for x in sibs):
+          unrestored.append(f"{m_.name}:{pcall.lineno}")
+      ctx.check(not unrestored, "SEQ-id", f"{s.qualname}|cue numbers 1..n in order", ctx.where(s.module, s.node), "creation-time identifiers, restored on every pop",
+                f"SRT cues print their creation-time identifier, but dropping a paragraph ({', '.join(unrestored)}) does not give its number back: the numbers that are written skip values")
+      first = 1
+    else:
+      raise AnalysisError(f"{s.qualname}: the cue-numbering idiom (to_string(<index>) over enumerate(self._paragraphs)) was not recognised")
   ctx.check(first == 1, "SEQ-id", f"{s.qualname}|cue numbers 1..n in order", ctx.where(s.module, s.node), "to_string(index) over enumerate, first number 1",
             f"SRT cue numbers start at {first} instead of 1")
   ts = ix.func("ttconv.srt.paragraph:SrtParagraph.to_string")
@@ -305,7 +322,6 @@ def check_numbering_header(ctx):
   ok = len(counters) == 1 and sum(isinstance(n.op, ast.Add) for n in incs) == 1 and len(pops) == sum(isinstance(n.op, ast.Sub) for n in incs) and len(pops) >= 1
   if ok:
     # every pop shares its block with a decrement
-    from ..core import parent
     for pcall in pops:
       blk = parent(parent(pcall))
       body = [b for fld in ("body", "orelse") for b in getattr(blk, fld, []) if isinstance(getattr(blk, fld, None), list)]
@@ -352,4 +368,11 @@ def run(ctx):
   check_supported(ctx)
   check_escaping(ctx)
   check_numbering_header(ctx)
+  npre = 0
+  for mn in common.ISD_FILTERS:
+    for g in ctx.ix.funcs_in(mn):
+      npre += trav.check_preorder(ctx, g)
+  ctx.floor("ORD-preorder", "recursive filter steps that read the parent and write the element", npre, 1)
+  nm = shape.check_memo_single_producer(ctx, ctx.ix.cls("ttconv.vtt.writer:VttContext"))
+  ctx.floor("MEMO", "memo dictionaries of the WebVTT context", nm, 1)
   common.check_history_independence(ctx, common.WRITERS + common.ISD_FILTERS)
